@@ -311,7 +311,7 @@ func runPack(src string, w io.Writer, buf *bytes.Buffer, deref, ignore bool, all
 			o.entries, o.sizes, _ = decodeSlug(o.raw)
 		}
 		return o
-	case <-time.After(20 * time.Second):
+	case <-time.After(caseTimeout):
 		return packOut{class: "timeout", timeout: true}
 	}
 }
@@ -2030,7 +2030,7 @@ func runFailedInsideDeref(rep *Report, hdir string, c *PCase, a int) {
 		}()
 		select {
 		case res = <-done:
-		case <-time.After(20 * time.Second):
+		case <-time.After(caseTimeout):
 			res = result{listing: "timeout", err: fmt.Errorf("timeout")}
 		}
 		return res
@@ -2426,7 +2426,7 @@ func startHistory(rep *Report, arena string, h *HCase) (finish func()) {
 		}(dirs[st.Dir], st.Mode, st.Deref)
 		select {
 		case last = <-done:
-		case <-time.After(20 * time.Second):
+		case <-time.After(caseTimeout):
 			rep.AddOracle(OracleFailure{Property: "C19", Lane: "pack-spelling", What: "Pack did not return within 20 s in a history of Pack calls", Input: in})
 			return finish
 		}
@@ -2558,7 +2558,7 @@ func runOverlappingLegacyPack(rep *Report, arena string, input map[string]interf
 		case <-gw.entered:
 		case oerr = <-done:
 			finished = true // nothing was written before it returned: no overlap to speak of
-		case <-time.After(10 * time.Second):
+		case <-time.After(caseTimeout):
 			close(gw.release)
 			rep.AddOracle(OracleFailure{Property: "C19", Lane: "pack-spelling", What: "slug.Pack wrote nothing and did not return within 10 s", Input: input})
 			return
@@ -2568,7 +2568,7 @@ func runOverlappingLegacyPack(rep *Report, arena string, input map[string]interf
 			close(gw.release)
 			select {
 			case oerr = <-done:
-			case <-time.After(20 * time.Second):
+			case <-time.After(caseTimeout):
 				rep.AddOracle(OracleFailure{Property: "C19", Lane: "pack-spelling", What: "slug.Pack did not return within 20 s after its writer was released", Input: input})
 				return
 			}
